@@ -29,34 +29,7 @@ elif which=='reset-order':
     sub('eval/eval_api.go','\ts.env = s.rootEnv\n\ts.depth = 0\n\ts.PipeVal = nil','\ts.PipeVal = nil\n\ts.depth = 0\n\ts.env = s.rootEnv')
 elif which=='ifelse-switch':
     sub('eval/eval.go','''	if right.Type() != object.ARRAY {''','''	if rt := right.Type(); rt != object.ARRAY {''') if False else None
-elif which=='cachegate-reorder':
-    # test error first, then misses: same semantics
-    sub('eval/eval.go','''	if after != before {
-		log.Debugf("Cache miss for %s %v, %d get misses", function.CacheKey, args, after-before)
-		// Propagate the can't cache
-		if cantCache {
-			s.env.TriggerNoCache()
-		}
-		return res
-	}
-	// Don't cache errors, as it could be due to binding for instance.
-	if res.Type() == object.ERROR {
-		log.Debugf("Cache miss for %s %v, not caching error result", function.CacheKey, args)
-		return res
-	}''','''	changed := after != before
-	if changed {
-		log.Debugf("Cache miss for %s %v, %d get misses", function.CacheKey, args, after-before)
-		// Propagate the can't cache
-		if cantCache {
-			s.env.TriggerNoCache()
-		}
-		return res
-	}
-	// Don't cache errors, as it could be due to binding for instance.
-	if rt := res.Type(); rt == object.ERROR {
-		log.Debugf("Cache miss for %s %v, not caching error result", function.CacheKey, args)
-		return res
-	}''')
+# ('cachegate-reorder' was retired: fix D61/D63 rewrote the code it reordered)
 elif which=='trie-if-chain':
     sub('trie/trie.go','''			if char < t.min {
 				t.min = char
